@@ -167,6 +167,10 @@ func (w *World) Step(st Step) error {
 			done = false
 			break
 		}
+		if w.usedConn == nil {
+			w.usedConn = map[string]bool{}
+		}
+		w.usedConn[st.Conn] = true
 		err = w.ConnUp(st.T, st.Conn)
 	case "conndown":
 		if _, exists := w.poolHas(st.Conn); !exists {
@@ -185,6 +189,9 @@ func (w *World) Step(st Step) error {
 		for _, t := range w.opt.Targets {
 			if len(w.pool.byTarget(t)) == 0 {
 				w.healN++
+				for w.usedConn[fmt.Sprintf("z%d", w.healN)] {
+					w.healN++ // a connection id is never used twice (a replayed behaviour may contain healing steps)
+				}
 				if err := w.Step(Step{K: "connup", T: t, Conn: fmt.Sprintf("z%d", w.healN), Auto: true}); err != nil {
 					return err
 				}
@@ -202,7 +209,7 @@ func (w *World) Step(st Step) error {
 	case "drain":
 		max := st.Cnt
 		if max <= 0 {
-			max = 3000
+			max = 1500
 		}
 		spin, derr := w.DrainWith(max, st.Pol)
 		if derr != nil {
@@ -213,6 +220,11 @@ func (w *World) Step(st Step) error {
 			return rerr
 		}
 		l.Spin = spin
+		l.Overrun = w.overrun
+		if w.overrun {
+			l.Quiet = false
+		}
+		w.overrun = false
 		return nil
 	case "observe":
 		return w.observe(st)
